@@ -89,7 +89,8 @@ class Explorer:
                 if a == BY_FULL:
                     return B_FULL
                 return None
-            if isinstance(fn, ast.Attribute) and fn.attr in ("getvalue", "getbuffer", "read"):
+            # read() is NOT here: its result depends on the stream position, which this domain does not track
+            if isinstance(fn, ast.Attribute) and fn.attr in ("getvalue", "getbuffer"):
                 base = self.value(fn.value, env)
                 if base == B_EMPTY:
                     return BY_EMPTY
